@@ -15,6 +15,7 @@ import SqiModel.Fp2N
 import SqiGen.Tables1
 import SqiGen.Tables3
 import SqiGen.Tables5
+import SqiProofs.Primes
 
 set_option maxRecDepth 100000
 
@@ -246,4 +247,9 @@ theorem L5_nqr_table : W64.NQR_TABLE.length = 20 ∧ W64.NQR_TABLE.all (fun x =>
 theorem L5_z_nqr_table : W64.Z_NQR_TABLE.length = 20 ∧
     W64.Z_NQR_TABLE.all (fun z => Fp2N.isSquare FP_p z && !Fp2N.isSquare FP_p (Fp2N.sub FP_p z (FP_ONE, 0))) = true := by decide +kernel
 end L5
+/-! ## the characteristics are prime (N+1 certificate checked by the kernel, see SqiProofs.Primality) -/
+theorem L1_characteristic_prime : Nat.Prime SqiGen.L1.FP_p := SqiProofs.Primes.L1_prime
+theorem L3_characteristic_prime : Nat.Prime SqiGen.L3.FP_p := SqiProofs.Primes.L3_prime
+theorem L5_characteristic_prime : Nat.Prime SqiGen.L5.FP_p := SqiProofs.Primes.L5_prime
+
 end SqiProps.C18
